@@ -219,7 +219,8 @@ func (state *RuntimeState) getStorageDataFromStorageStringDataJWT(serializedToke
 	issuer := state.idpGetIssuer()
 	if inboundJWT.Issuer != issuer || inboundJWT.TokenType != "storage_data" ||
 		len(inboundJWT.Audience) < 1 || inboundJWT.Audience[0] != issuer ||
-		inboundJWT.NotBefore > time.Now().Unix() {
+		inboundJWT.NotBefore > time.Now().Unix() ||
+		inboundJWT.Expiration < time.Now().Unix() {
 		err = errors.New("invalid JWT values")
 		return rvalue, err
 	}
